@@ -24,7 +24,7 @@ typedef struct {
     const char *name;
     int quick;
     int nw;
-    wspec w[3];
+    wspec w[4];
     int skind;
     aspec a[3];
 } cfg_t;
@@ -49,7 +49,16 @@ static const cfg_t cfgs[] = {
     { "X:D2 + X:D1 + U1:none | X: sig, sig", 1, 3,
       { { K_X, D_2, -1 }, { K_X, D_1, -1 }, { K_U1, D_NONE, -1 } }, K_X,
       { { A_SIG, -1 }, { A_SIG, -1 } } },
+    { "4w U1:none + U1:D1 + U1:D2 + U1:none(after w2) | X: -", 1, 4,
+      { { K_U1, D_NONE, -1 }, { K_U1, D_1, -1 }, { K_U1, D_2, -1 },
+        { K_U1, D_NONE, 2 } }, K_X, { { A_END, -1 } } },
+    { "4w X:D2 + X:D1 + X:D1 + X:none(after w2) | U0: sig(after w2)", 1, 4,
+      { { K_X, D_2, -1 }, { K_X, D_1, -1 }, { K_X, D_1, -1 }, { K_X, D_NONE, 2 } },
+      K_U0, { { A_SIG, 2 } } },
     /* thorough */
+    { "4w U0:none + U1:D1 + X:D2 + U1:D2(after w1) | X: sig(after w2), sig", 0, 4,
+      { { K_U0, D_NONE, -1 }, { K_U1, D_1, -1 }, { K_X, D_2, -1 },
+        { K_U1, D_2, 1 } }, K_X, { { A_SIG, 2 }, { A_SIG, -1 } } },
     { "U1:none + U1:D1 + U1:D2 | X: sig(after w1)", 0, 3,
       { { K_U1, D_NONE, -1 }, { K_U1, D_1, -1 }, { K_U1, D_2, -1 } }, K_X,
       { { A_SIG, 1 } } },
@@ -81,7 +90,7 @@ typedef struct {
     int type, w, rc;
     double now, now_after; /* now_after: clock when the signalling call returned */
 } ev_t;
-static ev_t EV[24];
+static ev_t EV[32];
 static int nEV;
 
 static const cfg_t *C;
@@ -89,12 +98,13 @@ static ABT_mutex M;
 static ABT_cond CV;
 static double T0, DL[4];
 static int nreg;        /* hooked: number of REG events so far */
-static int returned[3]; /* hooked flags */
+static int returned[4]; /* hooked flags */
 static int holder = -1;
+static int finished[5]; /* hooked: actor i is done */
 
 static void add_ev(int type, int w, int rc)
 {
-    abtmc_check(nEV < 24, "harness", "event log overflow");
+    abtmc_check(nEV < 32, "harness", "event log overflow");
     EV[nEV].type = type;
     EV[nEV].w = w;
     EV[nEV].rc = rc;
@@ -102,12 +112,24 @@ static void add_ev(int type, int w, int rc)
     nEV++;
 }
 
+/* wait for a hooked flag: a ULT must keep its stream available to the other
+ * ULTs, so it polls with a yield; an external thread blocks in the engine */
+static void wait_flag(int kind, const int *flag, int v)
+{
+    if (kind == K_X) {
+        abtmc_wait_until_eq(flag, v);
+    } else {
+        while (abtmc_load(flag) != v)
+            OK(ABT_thread_yield());
+    }
+}
+
 static void waiter_fn(void *arg)
 {
     int w = (int)(intptr_t)arg;
     const wspec *s = &C->w[w];
     if (s->gate >= 0)
-        abtmc_wait_until_eq(&returned[s->gate], 1);
+        wait_flag(s->kind, &returned[s->gate], 1);
     OK(ABT_mutex_lock(M));
     add_ev(E_REG, w, 0);
     abtmc_fetch_add(&nreg, 1);
@@ -133,6 +155,7 @@ static void waiter_fn(void *arg)
     add_ev(E_RET, w, rc);
     OK(ABT_mutex_unlock(M));
     abtmc_store(&returned[w], 1);
+    abtmc_store(&finished[w], 1);
 }
 
 static void signaller_fn(void *arg)
@@ -140,7 +163,7 @@ static void signaller_fn(void *arg)
     (void)arg;
     for (int i = 0; i < 3 && C->a[i].act != A_END; i++) {
         if (C->a[i].gate >= 0)
-            abtmc_wait_until_eq(&returned[C->a[i].gate], 1);
+            wait_flag(C->skind, &returned[C->a[i].gate], 1);
         OK(ABT_mutex_lock(M));
         if (C->a[i].act == A_SIG) {
             add_ev(E_SIG, -1, 0);
@@ -153,17 +176,18 @@ static void signaller_fn(void *arg)
         OK(ABT_mutex_unlock(M));
     }
     /* clean-up: once everybody has registered, release whoever is left */
-    abtmc_wait_until_eq(&nreg, C->nw);
+    wait_flag(C->skind, &nreg, C->nw);
     OK(ABT_mutex_lock(M));
     add_ev(E_BCAST, -1, 0);
     OK(ABT_cond_broadcast(CV));
     EV[nEV - 1].now_after = abtmc_now();
     OK(ABT_mutex_unlock(M));
+    abtmc_store(&finished[C->nw], 1);
 }
 
 /* ---- oracle: is there an assignment of wake-ups explaining the returns? */
-static int regpos[3], retpos[3], retrc[3];
-static double retnow[3];
+static int regpos[4], retpos[4], retrc[4];
+static double retnow[4];
 static int sigpos[8], sigtype[8], nsig;
 
 static int possibly_gone(int w, int p)
@@ -187,13 +211,13 @@ static int explain(int si, int *assigned /* per waiter: sig index or -1 */)
     }
     int p = sigpos[si];
     /* candidates: registered before p, not returned before p, unassigned */
-    int cand[3], nc = 0;
+    int cand[4], nc = 0;
     for (int w = 0; w < C->nw; w++)
         if (regpos[w] < p && p < retpos[w] && assigned[w] < 0)
             cand[nc++] = w;
     if (sigtype[si] == E_BCAST) {
         /* wakes every candidate that is still queued */
-        int asg2[3];
+        int asg2[4];
         memcpy(asg2, assigned, sizeof(asg2));
         for (int i = 0; i < nc; i++) {
             int w = cand[i];
@@ -257,9 +281,9 @@ static void scenario(int cfg)
     ABT_pool p1 = need_es1 ? h_main_pool(es1) : ABT_POOL_NULL;
 
     abtmc_window_begin();
-    ABT_thread th[4] = { ABT_THREAD_NULL, ABT_THREAD_NULL, ABT_THREAD_NULL,
-                         ABT_THREAD_NULL };
-    int xt[4] = { -1, -1, -1, -1 };
+    ABT_thread th[5] = { ABT_THREAD_NULL, ABT_THREAD_NULL, ABT_THREAD_NULL,
+                         ABT_THREAD_NULL, ABT_THREAD_NULL };
+    int xt[5] = { -1, -1, -1, -1, -1 };
     for (int i = 0; i <= C->nw; i++) {
         int kind = i < C->nw ? C->w[i].kind : C->skind;
         void (*fn)(void *) = i < C->nw ? waiter_fn : signaller_fn;
@@ -270,6 +294,11 @@ static void scenario(int cfg)
             OK(ABT_thread_create(kind == K_U0 ? p0 : p1, fn, arg,
                                  ABT_THREAD_ATTR_NULL, &th[i]));
     }
+    /* the primary ULT must not block its OS thread while ULT actors on its
+     * own stream still have work to do: poll with a yield */
+    for (int i = 0; i <= C->nw; i++)
+        while (abtmc_load(&finished[i]) == 0)
+            OK(ABT_thread_yield());
     for (int i = 0; i <= C->nw; i++) {
         if (th[i] != ABT_THREAD_NULL)
             OK(ABT_thread_free(&th[i]));
@@ -280,7 +309,7 @@ static void scenario(int cfg)
 
     /* collect */
     nsig = 0;
-    for (int w = 0; w < 3; w++)
+    for (int w = 0; w < 4; w++)
         regpos[w] = retpos[w] = -1;
     for (int i = 0; i < nEV; i++) {
         if (EV[i].type == E_REG)
@@ -311,7 +340,7 @@ static void scenario(int cfg)
             }
         }
     }
-    int asg[3] = { -1, -1, -1 };
+    int asg[4] = { -1, -1, -1, -1 };
     if (!explain(0, asg)) {
         describe(buf, sizeof(buf));
         abtmc_check_fail("wakeup_accounting",
@@ -320,7 +349,7 @@ static void scenario(int cfg)
                          "timed-out waiter swallowed a signal): %s", buf);
     }
     {
-        char o[64];
+        char o[96];
         int k = 0;
         for (int w = 0; w < C->nw; w++)
             k += snprintf(o + k, sizeof(o) - k, "w%d:%s@%d ", w,
